@@ -11,7 +11,8 @@
                     AS alias, implicit alias, isKeywordForClause), parseIdentifierName
      expressions    parseExpression (Pratt loop with its no-progress guard), parsePrefixExpression,
                     parseInfixExpression, parseIdentifierOrFunction (dotted names, keywords after a dot,
-                    t.* ), parseKeywordAsIdentifier, parseFunctionCall / parseFunctionArgumentList,
+                    t.* ), parseKeywordAsIdentifier, parseKeywordAsFunction, parseFunctionCall /
+                    parseFunctionArgumentList,
                     parseNumber (plain decimal < 2^64), parseString, parseBoolean, parseNull,
                     parseUnaryMinus / Plus, parseNot, parseGroupedOrTuple (grouping and subquery),
                     parseAsterisk, parseBinaryExpression, parseDotAccess, parseAlias,
@@ -32,7 +33,12 @@
      helpers take the possibly-nil expression they are handed in Go; [expr.Pos()] on nil is a Panic.
    * The progress guard `p.current.Pos == startPos` is modelled by comparing the lengths of the
      remaining token lists (positions of lexer output are strictly increasing, C13).
-   * One fuel for recursion depth and loop iterations; [OutOfFuel] is a distinct result.          *)
+   * One fuel for recursion depth and loop iterations; [OutOfFuel] is a distinct result
+     (excluded for fuel_for by SelectCoreFuel.parse_model_no_out_of_fuel).
+   * The parser functions are a pure transcription: they make no test the Go code does not make
+     (apart from ascii_only guards before a strings.ToUpper / ToLower comparison).  The boundary of
+     the PRINTER model is the separate predicate [printable_query]; [parse_statement] declines an
+     accepted statement outside it with OofPrinterFragment, [parse_statement_raw] is the bare parser. *)
 From Coq Require Import List NArith Bool String Ascii.
 From DC Require Import Base.Item Gen.TokenTable.
 Import ListNotations.
@@ -556,8 +562,9 @@ Definition parse_keyword_as_function (pe : PE) (fuel : nat) (s : st) : R (option
   else
     let s2 := if cur_is s1 T_ALL && negb (peek_is s1 T_RPAREN) && negb (peek_is s1 T_COMMA)
               then next s1 else s1 in
-    if bytes_eqb name s_view && (cur_is s2 T_SELECT || cur_is s2 T_WITH)     (* name == "view" *)
-    then OutOfFragment OofFuncView
+    if negb (ascii_only name) then OutOfFragment OofNonAscii
+    else if bytes_eqb (to_lower name) s_view && (cur_is s2 T_SELECT || cur_is s2 T_WITH)
+    then OutOfFragment OofFuncView                             (* strings.ToLower(name) == "view" *)
     else
       bind (if negb (cur_is s2 T_RPAREN) then parse_expression_list pe fuel s2 else ret [] s2)
            (fun '(args, s3) =>
@@ -1172,7 +1179,8 @@ End Core.
 (** * Entry points *)
 
 (* fuel: every recursive call and every loop iteration below a call consumes a token or ends;
-   nesting of the mutual functions between two consumed tokens is bounded by a constant *)
+   nesting of the mutual functions between two consumed tokens is bounded by a constant
+   (3 * length + 2 suffices: SelectCoreFuel.v) *)
 Definition fuel_for (ts : list item) : nat := 8 * List.length ts + 16.
 
 (* one statement from the front of [ts]: (statement, remaining tokens, p.errors) *)
